@@ -96,6 +96,51 @@ def rule_MS(run: Run) -> RuleResult:
                 # `x == Value(MISSING)` is a comparison of wrappers, not of the sentinel
                 res.add(f"{q}:{ast.unparse(n)[:50]} sentinel-compared-by-identity", ok, m.relpath, n.lineno,
                         ast.unparse(n)[:80], nec)
+    # "not given" has one spelling per parameter: a parameter whose own marker for "not given" is None must not be handed on, as it
+    # is, to a parameter whose marker is MISSING (``def f(key, default=None): return Option(key, default)`` gives every Option the
+    # default None: the key is never reported missing any more, C04 / C12) — unless the call sits behind a test of that parameter
+    n_flow = 0
+    for m, cls, fn, q in iter_functions(repo):
+        if m.name.startswith("labrea.mypy"):
+            continue
+        pos_params = fn.args.posonlyargs + fn.args.args
+        defaults = dict(zip([a.arg for a in pos_params][len(pos_params) - len(fn.args.defaults):], fn.args.defaults))
+        defaults.update({a.arg: d for a, d in zip(fn.args.kwonlyargs, fn.args.kw_defaults) if d is not None})
+        none_params = {a for a, d in defaults.items() if isinstance(d, ast.Constant) and d.value is None}
+        if not none_params:
+            continue
+        pm = astu.parent_map(fn)
+        for c in astu.calls_in(fn):
+            r_ = astu.resolve_in_function(repo, m, fn, c.func) if isinstance(c.func, (ast.Name, ast.Attribute)) else None
+            target = None
+            if r_ and r_[0] == "class":
+                im_ = r_[1].find_method("__init__")
+                target = (im_[1], 1) if im_ else None
+            elif r_ and r_[0] == "func":
+                target = (r_[1].node, 0)
+            if target is None:
+                continue
+            tfn, skip = target
+            tpos = (tfn.args.posonlyargs + tfn.args.args)[skip:]
+            tdef = dict(zip([a.arg for a in (tfn.args.posonlyargs + tfn.args.args)][len(tfn.args.posonlyargs + tfn.args.args) - len(tfn.args.defaults):], tfn.args.defaults))
+            tdef.update({a.arg: d for a, d in zip(tfn.args.kwonlyargs, tfn.args.kw_defaults) if d is not None})
+            pairs = [(tpos[i].arg, a) for i, a in enumerate(c.args) if i < len(tpos) and not isinstance(a, ast.Starred)] + [(k.arg, k.value) for k in c.keywords if k.arg]
+            for pname, a in pairs:
+                d_ = tdef.get(pname)
+                if not (isinstance(a, ast.Name) and a.id in none_params and isinstance(d_, ast.Name) and d_.id == "MISSING"):
+                    continue
+                n_flow += 1
+                # guarded: some enclosing if / conditional expression tests the parameter (``if default is not None``, ``if default is None … else``)
+                guarded, cur = False, c
+                while id(cur) in pm:
+                    up = pm[id(cur)]
+                    if isinstance(up, (ast.If, ast.IfExp)) and any(isinstance(x, ast.Name) and x.id == a.id for x in ast.walk(up.test)):
+                        guarded = True
+                    cur = up
+                res.add(f"{q}:{a.id} (None when not given) handed to {ast.unparse(c.func)[:30]}({pname}=…, MISSING when not given) only behind a test", guarded, m.relpath, c.lineno,
+                        "behind a test of the parameter" if guarded else
+                        f"{ast.unparse(c)[:60]}: when `{a.id}` is not given the callee receives None — a value — where it expects MISSING: an absent key yields None instead of the missing-key error", nec)
+    res.add("labrea:a None-marked optional parameter reaches a MISSING-marked one only behind a test", True, "labrea/_missing.py", 1, f"{n_flow} such hand-overs", nec, trivial=True)
     res.count("boolean_contexts", n_ctx)
     res.count("sentinel_comparisons", n_cmp)
     if n_ctx < 100:
@@ -978,6 +1023,10 @@ def rule_PO(run: Run) -> RuleResult:
                 if "P" not in known and "C" not in known:
                     if isinstance(p_.ret, Coll) or EL in p_.ret.key():
                         bad.append("a path returns the inner keys without filtering the pre-set ones")
+                    elif f"Val({op},Child(evaluatable))" in p_.ret.key() and Frame.atoms(p_.conds).get("Child(options)") is not False:
+                        # what the wrapped object reported is handed back as it is: right only when nothing is pre-set at all
+                        bad.append("a path returns what the wrapped object reported unfiltered although something may be pre-set "
+                                   f"(conditions {[c_[0][:40] for c_ in p_.conds]})")
                     continue
                 # an explicit loop: the path's own decisions say whether this key was kept
                 n_filters += 1
